@@ -209,6 +209,10 @@ impl MinCostFlowSolver {
             .unwrap()
             .maximal_formation_count()
             .unwrap_or(100) as UpperBound;
+        // all vehicles allotted to a maintenance slot may have to arrive from (or leave to) the
+        // same node, e.g., the only available depot.
+        let maximal_formation_count_for_vehicle_type = maximal_formation_count_for_vehicle_type
+            .max(maintenance_slots.values().copied().max().unwrap_or(0) as UpperBound);
 
         let trip_node_count =
             self.network.service_nodes(vehicle_type).count() + self.network.depots_iter().count();
